@@ -148,9 +148,9 @@ var c19MITypes = []string{gen.TOpen2, gen.TOpen3, gen.TEditions, gen.THybrid, ge
 	"goproto.proto.test.TestRequired", "goproto.proto.test.TestRequiredForeign", "goproto.proto.test.TestRequiredForeign", "goproto.proto.test.TestRequiredGroupFields", gen.TReqLazy}
 
 var c19InprocOps = []string{"file-proto", "msg-lookups", "msg-lookups", "enum-lookups", "field-targets", "field-targets", "options", "srcloc", "find-name", "dyn-roundtrip", "dyntypes-ext",
-	"mi-roundtrip", "mi-roundtrip", "mi-reflect", "mi-json", "mi-size", "mi-new", "mi-checkinit", "xi-use", "greg-find", "greg-register", "greg-range", "newfile"}
+	"mi-roundtrip", "mi-roundtrip", "mi-reflect", "mi-json", "mi-size", "mi-new", "mi-checkinit", "xi-use", "greg-find", "greg-register", "greg-range", "newfile", "ab-desc", "ab-roundtrip"}
 
-var c19ProcOps = []string{"pm-roundtrip", "pm-roundtrip", "pm-roundtrip", "pm-desc", "pm-desc", "pm-file-proto", "pm-json", "pm-legacy", "pm-legacy", "pm-ext", "pm-find", "pm-newfile", "pm-dyn"}
+var c19ProcOps = []string{"pm-roundtrip", "pm-roundtrip", "pm-roundtrip", "pm-desc", "pm-desc", "pm-file-proto", "pm-json", "pm-legacy", "pm-legacy", "pm-ext", "pm-find", "pm-newfile", "pm-dyn", "pm-aberrant", "pm-aberrant"}
 
 func (c19) Gen(r *sim.Rng, tier string) *scn.Scn {
 	s := &scn.Scn{P: map[string]int64{}}
@@ -210,6 +210,11 @@ func (c19) Gen(r *sim.Rng, tier string) *scn.Scn {
 		}
 		s.P["checkinit_bias"] = 1
 	}
+	if r.Chance(2, 5) {
+		// a chain of never-seen legacy struct types without descriptors (see c19ab.go)
+		s.Objects = append(s.Objects, scn.Object{Type: "ab", Seed: r.U64()})
+		s.P["ab_bias"] = 1
+	}
 	s.P["reverse"] = int64(r.Intn(2))
 	for c := 0; c < nc; c++ {
 		var ops []scn.Op
@@ -222,6 +227,9 @@ func (c19) Gen(r *sim.Rng, tier string) *scn.Scn {
 				// first use of one of the MessageInfos added last, through the initialization check
 				op.Op = []string{"mi-checkinit", "mi-checkinit", "mi-roundtrip"}[r.Intn(3)]
 				op.Obj = len(s.Objects) - 1 - r.Intn(2)
+			}
+			if s.P["ab_bias"] == 1 && r.Chance(1, 2) {
+				op.Op = []string{"ab-desc", "ab-roundtrip"}[r.Intn(2)]
 			}
 			ops = append(ops, op)
 		}
@@ -242,17 +250,19 @@ type pmsg struct{ m protoreflect.Message }
 func (p pmsg) ProtoReflect() protoreflect.Message { return p.m }
 
 type c19Env struct {
-	reg     *protoregistry.Files
-	files   []protoreflect.FileDescriptor // closure, dependency order
-	roots   []protoreflect.FileDescriptor // per "file" object index (nil for others)
-	mis     []*impl.MessageInfo           // per object index
-	miTypes []string
-	miWire  [][]byte
-	xis     []*impl.ExtensionInfo
-	dynT    *dynamicpb.Types
-	gfiles  *protoregistry.Files
-	gtypes  *protoregistry.Types
-	regSets [][]protoreflect.FileDescriptor // per client: files it may register globally (disjoint)
+	reg      *protoregistry.Files
+	files    []protoreflect.FileDescriptor // closure, dependency order
+	roots    []protoreflect.FileDescriptor // per "file" object index (nil for others)
+	mis      []*impl.MessageInfo           // per object index
+	miTypes  []string
+	miWire   [][]byte
+	xis      []*impl.ExtensionInfo
+	dynT     *dynamicpb.Types
+	gfiles   *protoregistry.Files
+	gtypes   *protoregistry.Types
+	regSets  [][]protoreflect.FileDescriptor // per client: files it may register globally (disjoint)
+	abShapes []abShape
+	abTypes  []reflect.Type
 }
 
 func descPtr(d any) uintptr {
@@ -670,6 +680,9 @@ func (c19) Run(s *scn.Scn, x *sim.Exec) {
 	env.miWire = make([][]byte, len(s.Objects))
 	for i, o := range s.Objects {
 		switch o.Type {
+		case "ab":
+			env.abShapes = abMakeShapes(o.Seed)
+			env.abTypes = abBuildTypes(env.abShapes)
 		case "file":
 			env.roots[i] = byPath[o.Note]
 		case "mi":
@@ -796,6 +809,11 @@ func (c19) Run(s *scn.Scn, x *sim.Exec) {
 				return pmsg{mi.MessageOf(reflect.New(mi.GoReflectType.Elem()).Interface())}
 			}
 			return c19MsgOp("mi:"+strings.TrimPrefix(op.Op, "mi-"), newMsg, env.miWire[obj])
+		case "ab-desc", "ab-roundtrip":
+			if env.abTypes == nil {
+				return sim.OpResult{}
+			}
+			return abOp(x, strings.TrimPrefix(op.Op, "ab-"), env.abShapes, env.abTypes, int(op.N)%len(env.abTypes), uint64(op.M))
 		case "xi-use":
 			if len(env.xis) == 0 {
 				return sim.OpResult{}
@@ -953,6 +971,9 @@ func c19ProcOp(s *scn.Scn, op *scn.Op) sim.OpResult {
 		h.b(b)
 		h.u(uint64(proto.Size(m)))
 		return sim.OpResult{Digest: h.h}
+	case "pm-aberrant":
+		r, _ := abHandOp(op.N)
+		return r
 	case "pm-ext":
 		h := newHasher()
 		var xts []protoreflect.ExtensionType
@@ -1013,7 +1034,16 @@ func c19ProcOp(s *scn.Scn, op *scn.Op) sim.OpResult {
 func c19Process(s *scn.Scn, x *sim.Exec) {
 	if os.Getenv("PBSIM_C19_CHILD") == "1" || os.Getenv("PBSIM_WORKDIR") == "" {
 		// child (or a direct replay): execute; digests go into the trace-independent result list
-		logs := x.RunPhase(0, func(client, opi int, op *scn.Op) sim.OpResult { return c19ProcOp(s, op) })
+		logs := x.RunPhase(0, func(client, opi int, op *scn.Op) sim.OpResult {
+			if op.Op == "pm-aberrant" {
+				r, bad := abHandOp(op.N)
+				if bad != "" {
+					x.Fail("aberrant-descriptor-incomplete", "first use of a hand-written legacy struct type without descriptor: %s", bad)
+				}
+				return r
+			}
+			return c19ProcOp(s, op)
+		})
 		if x.Failed() {
 			return
 		}
